@@ -82,8 +82,12 @@ Inductive sigc := SigEmpty | SigBad | SigOK.   (* len = 0 / integrity fails / in
 Inductive pattr := PAbsent | PInvalid | PName. (* io.cncf.notary.verificationPlugin *)
 Inductive revr :=
 | RevOK | RevFail | RevErr
-| RevBadShape.      (* not one non-nil result per certificate (nil entry, more or fewer results, (nil, nil)):
+| RevBadShape       (* not one non-nil result per certificate (nil entry, more or fewer results, (nil, nil)):
                        breaks the Validator contract; since fix d78db00 an ordinary failure *)
+| RevNilServer.     (* one non-nil result per certificate, but a nil entry among the ServerResults of one of
+                       them: checkRevocationResults does not look at them, revocationFinalResult dereferences
+                       every entry (serverResult.Error, verifier/verifier.go:887). Found by the GoLite
+                       translation (props/C12_Generated.v, C12_gen_revocation_nil_server_panics) *)
 Inductive presp :=
 | PRErr
 | PRNil                                     (* (nil, nil): breaks the plugin.VerifyPlugin contract; since fix
@@ -202,11 +206,13 @@ Inductive nat_res := NPanic | NStop (e : errc) (rs : list (vtype * bool)) | NGo 
 (* verifyRevocation: does the revocation validation fail? None = the code panics.
    [fixed] = with checkRevocationResults (fix d78db00): an answer that is not one non-nil result
    per certificate is an ordinary failure ("unable to check revocation status"); before the fix
-   revocationFinalResult dereferenced a nil entry / indexed certChain out of range *)
+   revocationFinalResult dereferenced a nil entry / indexed certChain out of range.
+   A nil server result inside a result panics before and after the fix. *)
 Definition rev_failed (fixed : bool) (r : revr) : option bool :=
   match r with
   | RevOK => Some false
   | RevBadShape => if fixed then Some true else None
+  | RevNilServer => None
   | _ => Some true
   end.
 
@@ -604,10 +610,17 @@ Definition impl_wf (impl : vimpl) : bool :=
 (* the documents are as the constructor validated them *)
 Definition sel_wf (d : option sel) : bool := match d with Some SelBadLevel => false | _ => true end.
 
-(* since the fixes d78db00 and 686cc56 there is no contract on the revocation validator or on the
-   verification plugin: whatever they answer, the entry points return normally *)
+(* the revocation validator: no nil entry among the server results of a result it returns (the shape of
+   the result vector itself is no longer a contract since fix d78db00) *)
+Definition rev_wf (r : revr) : bool := match r with RevNilServer => false | _ => true end.
+Definition sc_wf (sc : scenario) : bool := rev_wf (s_rev sc).
+Definition item_wf (it : item) : bool := match it with Sig sc => sc_wf sc | FetchErr => true end.
+
+(* since fix 686cc56 there is no contract on the verification plugin, and since fix d78db00 none on the
+   shape of the revocation result vector: whatever they answer, the entry points return normally *)
 Definition wf (i : input) : bool :=
-  sel_wf (v_oci (i_v i)) && sel_wf (v_blob (i_v i)) && impl_wf (i_impl i).
+  sel_wf (v_oci (i_v i)) && sel_wf (v_blob (i_v i)) && impl_wf (i_impl i)
+  && sc_wf (i_sc i) && forallb item_wf (n_items (i_n i)).
 
 (* ---------- boolean equalities ---------- *)
 Definition errc_eqb (a b : errc) : bool :=
